@@ -61,6 +61,9 @@ def absPy (s : State) : Cat := fun d fn =>
   (look s.dfs (d, fn)).map fun g => fun n =>
     (look s.cols (g, n)).bind fun h => (s.handles[h]?).bind fun hd => s.objs[hd.oid]?
 
+/-- the columns of one frame as stored in the file -/
+def frameH5 (s : State) (g : Nat) : Frame := fun n => (look s.links (g, n)).bind fun oid => s.objs[oid]?
+
 /-- the renaming function of a `rename` dictionary -/
 def renOf (dict : List (Name × Name)) (n : Name) : Name := (lookN dict n).getD n
 
